@@ -128,7 +128,9 @@ def run_table(table, nsteps, variant):
         _AGRID = importlib.util.module_from_spec(spec)
         spec.loader.exec_module(_AGRID)
     grid = _AGRID.Grid()
-    st = State(instance_variables=dict(farmid=int, super=float), particle_variables=dict(release_time="time", hatch="time"))
+    # defaults exist for variables that the release rows also provide: the row's value must win
+    st = State(instance_variables=dict(farmid=int, super=float), particle_variables=dict(release_time="time", hatch="time"),
+               default_values=dict(super=-1.0, Z=-7.0, farmid=-1))
     tk = TimeKeeper(start=world.iso(S0), stop=world.iso(S0 + sgn * nsteps * DT), dt=DT, time_reversal=rev)
     sched = reference(table, nsteps, mode, has_mult)
     total = sum(len(v) for v in sched.values())
